@@ -437,7 +437,9 @@ func sendHelloDevice(ctx context.Context, transport Transport, c *TO2Config) (pr
 			captureErr(ctx, protocol.MessageBodyErrCode, "")
 			return protocol.Nonce{}, nil, nil, fmt.Errorf("error parsing TO2.ProveOVHdr contents: %w", err)
 		}
-		defer clear(proveOVHdr.Payload.Val.KeyExchangeA)
+		if proveOVHdr.Payload != nil {
+			defer clear(proveOVHdr.Payload.Val.KeyExchangeA)
+		}
 
 	case protocol.ErrorMsgType:
 		var errMsg protocol.ErrorMessage
@@ -452,6 +454,16 @@ func sendHelloDevice(ctx context.Context, transport Transport, c *TO2Config) (pr
 	}
 
 	// Validate the HelloDeviceHash
+	if proveOVHdr.Payload == nil {
+		captureErr(ctx, protocol.InvalidMessageErrCode, "")
+		return protocol.Nonce{}, nil, nil, fmt.Errorf("TO2.ProveOVHdr payload is missing")
+	}
+	switch alg := proveOVHdr.Payload.Val.HelloDeviceHash.Algorithm; alg {
+	case protocol.Sha256Hash, protocol.Sha384Hash:
+	default:
+		captureErr(ctx, protocol.InvalidMessageErrCode, "")
+		return protocol.Nonce{}, nil, nil, fmt.Errorf("unsupported hash algorithm for HelloDevice hash in TO2.ProveOVHdr: %d", alg)
+	}
 	helloDeviceHash := proveOVHdr.Payload.Val.HelloDeviceHash.Algorithm.HashFunc().New()
 	if err := cbor.NewEncoder(helloDeviceHash).Encode(hello); err != nil {
 		return protocol.Nonce{}, nil, nil, fmt.Errorf("error hashing HelloDevice message to verify against TO2.ProveOVHdr payload's hash: %w", err)
